@@ -149,7 +149,8 @@ def run_case(case):
     solver = case["solver"]
     eff = solver or ("ConjugateGradient" if proxg is None else
                      "GradientMethod" if G is None else "PrimalDualHybridGradient")
-    sig = "|".join(map(str, [kindA, "c" if cplx else "r", "lam" if lam else "0",
+    sig = "|".join(map(str, ["L%d" % (sum(case["rs"]) % 4), kindA, "c" if cplx else "r",
+                             "lam" if lam else "0",
                              "z" if z is not None else "-", pk, kindG, solver,
                              "P" if case["P"] else "-", "a" if case["alpha"] else "-",
                              case["tau"], case["rho"], "x0" if case["x0"] else "-"]))
@@ -209,6 +210,19 @@ def run_case(case):
             x0 = np.minimum(np.maximum(x0, g[1].reshape(xshape)), g[2].reshape(xshape))
         kw["x"] = x0
     y_keep = y.copy()
+    layout = sum(case["rs"]) % 4
+    if layout == 1:
+        # read-only data (e.g. memory-mapped): a supported configuration must still run
+        y.flags.writeable = False
+        if z is not None:
+            z.flags.writeable = False
+    elif layout == 2 and x0 is not None:
+        # initial x given as a strided view: the solution must land in the caller's view
+        big = np.zeros(tuple(2 * n_ for n_ in x0.shape), x0.dtype)
+        sl = tuple(slice(None, None, 2) for _ in x0.shape)
+        big[sl] = x0
+        x0 = big[sl]
+        kw["x"] = x0
     excluded = (eff == "ConjugateGradient" and proxg is not None) or \
                (eff == "GradientMethod" and G is not None)
     try:
